@@ -34,6 +34,12 @@ Theorem C27_new_no_panic : forall unq ts rs, unq_ok unq -> parse_file ts = Ok (r
   rules_chars_ok rs = true -> exists r, compile unq rs = Ok r.
 Proof. exact new_no_panic. Qed.
 
+(* … stated on the token stream tpl/scanner delivers: the only assumption about the scanner is that
+   a CHAR token carries both quotes (checked on every case of every run) *)
+Theorem C27_new_no_panic_tokens : forall unq ts rs, unq_ok unq -> toks_char_ok ts -> parse_file ts = Ok (rs, 0) ->
+  exists r, compile unq rs = Ok r.
+Proof. exact new_no_panic_tokens. Qed.
+
 (* the hypotheses matter: a nil operand (possible only after a reported parse error) or a CHAR
    literal shorter than two bytes (possible only after a reported scan error) would panic *)
 Theorem C27_nil_operand_panics : forall unq rules o, compile_expr unq rules (EUn o ENil) = Panic.
@@ -65,3 +71,4 @@ Print Assumptions C27_check_token_range.
 Print Assumptions C27_compile_expr_no_panic.
 Print Assumptions C27_compile_no_panic.
 Print Assumptions C27_new_no_panic.
+Print Assumptions C27_new_no_panic_tokens.
